@@ -85,15 +85,21 @@ mod vk_vec {
             Some(mut ch) => {
                 assert!(c < len && ch.begin_idx == c, "[C02 C03 begin] chunk begins at the reserved position");
                 let l = ch.values.len();
-                assert!(l == clamp_end(c, n, len) - c, "[C01 C03 exact-len] chunk length is min(n, len - c)");
+                // (contents first: a failed assertion ends its path, so the more specific clause is checked before the length)
                 let mut k = 0;
-                while k < l && k < take {
-                    let x = ch.values.next().unwrap();
-                    assert!(x.0 == c + k, "[C02 C03 C08 contents] k-th chunk element is the one at position c + k");
-                    delivered[c + k] = true;
-                    std::mem::forget(x);
+                while k < N && k < take {
+                    match ch.values.next() {
+                        Some(x) => {
+                            assert!(x.0 == c + k, "[C02 C03 C08 contents] k-th chunk element is the one at position c + k");
+                            assert!(c + k < len, "[C02 C03 contents] chunk elements are source elements");
+                            delivered[c + k] = true;
+                            std::mem::forget(x);
+                        }
+                        None => { assert!(k >= l, "[C03 exact-len] the chunk yields every element it announced"); }
+                    }
                     k += 1;
                 }
+                assert!(l == clamp_end(c, n, len) - c, "[C01 C03 exact-len] chunk length is min(n, len - c)");
                 if take >= l { assert!(ch.values.next().is_none(), "[C03 exact-len] the chunk yields exactly the announced number of elements"); }
                 drop(ch);
             }
@@ -127,15 +133,20 @@ mod vk_vec {
                 Some(mut ch) => {
                     assert!(c < len && ch.begin_idx == c, "[C02 C03 begin] chunk begins at the reserved position");
                     let l = ch.values.len();
-                    assert!(l == clamp_end(c, n, len) - c, "[C01 C03 exact-len] chunk length is min(n, len - c)");
                     let mut k = 0;
-                    while k < l && k < take {
-                        let x = ch.values.next().unwrap();
-                        assert!(x.0 == c + k, "[C02 C03 C08 contents] k-th chunk element is the one at position c + k");
-                        delivered[c + k] = true;
-                        std::mem::forget(x);
+                    while k < N && k < take {
+                        match ch.values.next() {
+                            Some(x) => {
+                                assert!(x.0 == c + k, "[C02 C03 C08 contents] k-th chunk element is the one at position c + k");
+                                assert!(c + k < len, "[C02 C03 contents] chunk elements are source elements");
+                                delivered[c + k] = true;
+                                std::mem::forget(x);
+                            }
+                            None => { assert!(k >= l, "[C03 exact-len] the chunk yields every element it announced"); }
+                        }
                         k += 1;
                     }
+                    assert!(l == clamp_end(c, n, len) - c, "[C01 C03 exact-len] chunk length is min(n, len - c)");
                     drop(ch);
                 }
                 None => assert!(c >= len, "[C01 C03 none-iff] None only past the end"),
@@ -207,7 +218,7 @@ mod vk_vec {
         drop(s);
         let d = drops();
         let mut k = 0;
-        while k < N { assert!(d[k] == 0, "[C08 ledger-delivered] nothing is dropped behind the caller's back"); k += 1; }
+        while k < N { assert!(d[k] == 0, "[C08 C10 ledger-delivered] the remainder owns its elements: nothing is dropped behind the caller's back"); k += 1; }
     }
 
     // @harness name=vec_std_pre props=C17 kind=bounded bound="len <= 3; c, n over the full usize domain; every operation"
